@@ -85,15 +85,22 @@ __CPROVER_ensures(SA_UMUL_BOUNDS(a, b))
  * stay REAL code, so their own VERIFY_CHECKs are the obligations "every branch satisfies the magnitude
  * precondition of every field operation it calls". */
 #if defined(VERIFY) && defined(C05_GROUP_CONTRACTS) && !defined(VERIF_NATIVE)
-/* secp256k1_fe_verify as a predicate (field_impl.h:fe_verify + field_*_impl.h:fe_impl_verify) */
+/* The representation invariant of a field element in a VERIFY build, as DEFINED in field_5x52.h / field_10x26.h:
+ *   "Magnitude m requires n[i] <= 2 m (2^52-1), n[4] <= 2 m (2^48-1)";  "Normalized requires n[i] <= 2^52-1, value < p";
+ *   field.h: magnitude in [0,32], normalized in {0,1}, normalized implies magnitude <= 1.
+ * Note: secp256k1_fe_impl_verify checks the limb bound with m' = normalized ? 1 : 2*magnitude, which is WEAKER for the
+ * combination (normalized = 1, magnitude = 0): it accepts a non-zero "magnitude 0" element, for which the magnitude
+ * arithmetic of fe_add is unsound (found by C05.gej_add_ge: s1.magnitude = 0 with non-zero limbs).  Such an element
+ * cannot be produced through the field API (magnitude 0 only arises with all limbs zero), so the documented invariant is
+ * used here; the repo's own fe_verify is implied by it. */
 static inline int sa_fe_okv(const secp256k1_fe *a) {
     int i, ok = 1; uint64_t m;
     if (a->magnitude < 0 || a->magnitude > 32) return 0;
     if (a->normalized != 0 && a->normalized != 1) return 0;
     if (a->normalized && a->magnitude > 1) return 0;
-    m = a->normalized ? 1 : 2 * (uint64_t)a->magnitude;
-    for (i = 0; i < SA_FE_NL - 1; i++) ok = ok && ((uint64_t)a->n[i] <= SA_FE_LIMB_MAX * m);
-    ok = ok && ((uint64_t)a->n[SA_FE_NL - 1] <= SA_FE_TOP_MAX * m);
+    m = 2 * (uint64_t)a->magnitude;
+    for (i = 0; i < SA_FE_NL - 1; i++) ok = ok && ((uint64_t)a->n[i] <= SA_FE_LIMB_MAX * m) && (!a->normalized || (uint64_t)a->n[i] <= SA_FE_LIMB_MAX);
+    ok = ok && ((uint64_t)a->n[SA_FE_NL - 1] <= SA_FE_TOP_MAX * m) && (!a->normalized || (uint64_t)a->n[SA_FE_NL - 1] <= SA_FE_TOP_MAX);
     if (a->normalized) ok = ok && fval(a) < P_();
     return ok;
 }
